@@ -357,7 +357,9 @@ let blob_of x = match x with
   | L [len; seed] -> let n = int_ len and sd = int_ seed in List.init n (fun i -> n_of_int ((sd + i * 7) land 255))
   | _ -> raise (Bad "blob")
 let run_chunk args = match args with
-  | [A stack; items; wplan; rplan] -> with_panic (fun emit ->
+  | [A stack; items; wplan; rplan] | [A stack; items; wplan; rplan; _] -> with_panic (fun emit ->
+      let cut = (match args with [_; _; _; _; c] -> (match tagged "cut" c with [k] -> int_ k | _ -> raise (Bad "cut")) | _ -> 0) in
+      let drop_tail l = let n = List.length l in List.filteri (fun i _ -> i < n - cut) l in
       let items = List.map blob_of (tagged "items" items) in
       if stack = "lz4" then emit (A "oracle-only")
       else begin
@@ -369,7 +371,8 @@ let run_chunk args = match args with
         | None ->
           emit (L [A "dump"; A "ok"]);
           emit (L [A "stored"; A (hex_of_bytes st.w_stored)]);
-          emit (L (A "items" :: List.map sx_citem (if stack = "bare" then chunk_read st.w_stored rp else chunk_read_buffered st.w_stored rp)))
+          let data = drop_tail st.w_stored in
+          emit (L (A "items" :: List.map sx_citem (if stack = "bare" then chunk_read data rp else chunk_read_buffered data rp)))
       end)
   | _ -> raise (Bad "chunk args")
 let run_chunkchk args = match args with
@@ -448,6 +451,8 @@ let run_case (x : sexp) : sexp =
     (* records of the crate's own types: the generator supplies the rank of each record's (chrom,start,end) as key *)
     run_xsort [cs; th; comp; A "0"; L (A "items" :: List.map (fun r -> match lst r with rank :: id :: _ -> L [rank; id] | _ -> raise (Bad "xsortrec rec")) (tagged "recs" recs))]
   | L (A "tmp" :: _) -> L [A "r"; A "oracle-only"]
+  | L (A "xsortquota" :: _) -> L [A "r"; A "oracle-only"]
+  | L (A "wrfail" :: _) -> L [A "r"; A "oracle-only"]
   | _ -> raise (Bad "unknown case kind")
 
 let () =
